@@ -1,19 +1,20 @@
 #!/bin/bash
-# usage: tools/sweep_seeded.sh [ids...] — for each seeded change: apply to /repo, run the check of its property, revert. Prints one line per change.
-cd /repo || exit 2
-git diff --quiet || { echo "repo dirty"; exit 2; }
+# usage: tools/sweep_seeded.sh [ids...] — for each seeded change: apply it in a SCRATCH worktree of /repo's HEAD (never in /repo),
+# run the check of its property against that worktree (GOVC_REPO) with evidence/replay redirected (GOVC_OUT), print one line.
 ids="$@"; [ -z "$ids" ] && ids=$(ls /verif/seeded)
+WT=$(mktemp -d /tmp/govc-sweep.XXXX); OUT=$(mktemp -d /tmp/govc-sweep-out.XXXX)
+rmdir $WT; git -C /repo worktree add -q --detach $WT HEAD || exit 2
 claimed=$(python3 -c "import json;print(' '.join(c['property_id'] for c in json.load(open('/verif/MANIFEST.json'))['checks']))")
 for id in $ids; do
   p=$(python3 -c "import json;print(json.load(open('/verif/seeded/$id/meta.json'))['property'])")
   case " $claimed " in *" $p "*) ;; *) echo "$id $p not-claimed"; continue;; esac
-  if ! git apply /verif/seeded/$id/patch.diff 2>/dev/null; then
-     patch -p1 --fuzz=3 -s < /verif/seeded/$id/patch.diff >/dev/null 2>&1 || { echo "$id $p patch-does-not-apply"; git checkout -- .; find . -name "*.orig" -o -name "*.rej" | xargs rm -f; continue; }
+  if ! git -C $WT apply /verif/seeded/$id/patch.diff 2>/dev/null; then
+     (cd $WT && patch -p1 --fuzz=3 -s < /verif/seeded/$id/patch.diff >/dev/null 2>&1) || { echo "$id $p patch-does-not-apply"; git -C $WT checkout -q -- .; git -C $WT clean -fdq; continue; }
   fi
-  out=$(cd /verif && ./check $p 2>&1)
+  out=$(cd /verif && GOVC_REPO=$WT GOVC_OUT=$OUT ./check $p ${SWEEP_ARGS} 2>&1)
   v=$(echo "$out" | grep -c '^VIOLATION')
   first=$(echo "$out" | grep -m1 'obligation:' )
   echo "$id $p violations=$v $first"
-  git checkout -- . ; find . -name "*.orig" -o -name "*.rej" | xargs rm -f
+  git -C $WT checkout -q -- . ; git -C $WT clean -fdq
 done
-cd /verif && git status --short evidence replay | head -2
+git -C /repo worktree remove --force $WT; rm -rf $OUT
